@@ -833,13 +833,16 @@ class Engine:
         out_entry = st.out_n
         k0 = I(0)
 
-        def inv_at(stx, k):
+        def inv_at(stx, k, proving=True):
             stx.loopk[ordinal] = k
             if inv == 'auto-yield-from':
                 return stx.out_n == out_entry + k
             S = SView(self, stx, ordinal)
             S.out_entry = out_entry
             S.entry = SView(self, st, None)
+            # universally quantified invariants may be stated at a fresh generic element when they are
+            # the proof goal (universal introduction) and as a quantifier when they are assumed
+            S.proving = proving
             return inv(S)
 
         # 1. initiation
@@ -857,7 +860,13 @@ class Engine:
             if nme in hav.env:
                 if isinstance(hav.env[nme], (QueueV, IterV)) and nme not in names:
                     continue      # reference stays, the heap cell is havocked below
-                nv = fresh_like(hav.env[nme], nme)
+                nv = self.ctx_hook('havoc_value', hav, nme, hav.env[nme])
+                if nv is None:
+                    nv = fresh_like(hav.env[nme], nme)
+                if nv is not None and getattr(nv, 'fresh_len_nonneg', None) is not None:
+                    hav.pc.append(nv.fresh_len_nonneg)
+                if nv is None and isinstance(hav.env[nme], ListV) is False and isinstance(hav.env[nme], SymSeqV) is False:
+                    pass
                 if nv is None:
                     nv = self.ctx_hook('havoc_value', hav, nme, hav.env[nme])
                     if nv is None:
@@ -903,7 +912,7 @@ class Engine:
         if length is not None:
             smt.FOLDS.note_index(length)
         hav.pc.append(k >= 0)
-        hav.pc.append(inv_at(hav, k))
+        hav.pc.append(inv_at(hav, k, proving=False))
         if length is not None:
             hav.pc.append(k <= length)
         if elem is not None:
@@ -2194,6 +2203,26 @@ class Engine:
             return [(st, OpaqueStrV())]
         if isinstance(a, TupleV) and isinstance(b, TupleV) and isinstance(op, ast.Add):
             return [(st, TupleV(a.items + b.items, a.is_list))]
+        if isinstance(op, ast.Add) and isinstance(b, SymSeqV) and (
+                isinstance(a, SymSeqV) or (isinstance(a, ListV) and z3.is_true(z3.simplify(z3.Length(a.seq) == 0)))):
+            # list concatenation
+            if isinstance(a, ListV):
+                return [(st, b.retype('list'))]
+            if a.pytype != b.pytype:
+                self.raise_(st, self.new_exc(st, 'TypeError'))
+                return []
+            la = a.length
+
+            def cat(e, a=a, b=b, la=la):
+                x, y = a.at(e), b.at(e - la)
+                if isinstance(x, KeyV) and isinstance(y, KeyV):
+                    return KeyV(z3.If(e < la, x.t, y.t))
+                if isinstance(x, IntV) and isinstance(y, IntV):
+                    return IntV(z3.If(e < la, x.t, y.t))
+                if isinstance(x, ObjV) and isinstance(y, ObjV):
+                    return ObjV(z3.If(e < la, x.t, y.t))
+                raise Unsupported('concatenation of sequences of %s and %s' % (x.kind, y.kind))
+            return [(st, SymSeqV(la + b.length, cat, a.pytype))]
         h = self.ctx_hook('binop_hook', st, op, a, b, node)
         if h is not None:
             return h
